@@ -623,6 +623,25 @@ def gen_layout(seed, tier, focus):
             p1, p2 = ch.randrange(F, "co-p1", 1 << 30), ch.randrange(F, "co-p2", 1 << 30)
             keep = set(ch.sample(F, "co-keep", range(len(placement)), ch.randint(F, "co-nkeep", 0, max(0, len(placement) - k))))
             muts = muts[:ch.randint(F, "co-others", 0, 2)] + [[srv, sh, kind, p1, p2] for i, (sh, srv) in enumerate(placement) if i not in keep]
+        if ch.chance(F, "splice", 0.18):
+            # colluding servers: each holds forged copies of the same share numbers (pieces of another file's shares
+            # spliced in consistently); the honest servers answer the share query late or not at all, so that the reader
+            # works through one forged copy after another of the same share number before (if ever) it sees a genuine one
+            ncoll = ch.randint(F, "sp-ncoll", 1, 7)
+            nhon = ch.randint(F, "sp-nhonest", 1, 4)
+            nf_ = ch.randint(F, "sp-nforged", min(k, n), n)
+            mask = ch.pick(F, "sp-mask", [7, 7, 7, 3, 5, 1, 2, 4, 6, 1 | 8, 1 | 8 | 64, 32 | 8, 32 | 8 | 16, 32 | 8 | 16 | 64, 16, 8, 64])
+            tgt = ch.randrange(F, "sp-seg", 1 << 20)
+            placement = [[sh, ncoll + sh % nhon] for sh in range(n)] + [[sh, c] for c in range(ncoll) for sh in range(nf_)]
+            nservers = ncoll + nhon
+            cfg["nservers"], cfg["placement"] = nservers, placement
+            muts = [[c, sh, "splice", mask, tgt] for c in range(ncoll) for sh in range(nf_)]
+            late = ch.pick(F, "sp-late", ["stall", "stall", "down", "none"])
+            for h in range(nhon):
+                if late == "stall":
+                    faults.append(["stall", ncoll + h, "get_buckets", 1, ch.pick(F, ("sp-secs", h), [1.5, 1.5, 12.0, 60.0])])
+                elif late == "down" and (h or nhon == 1 or ch.chance(F, ("sp-down", h), 0.7)):
+                    faults.append(["error", ncoll + h, "get_buckets", 1, 1.0, True])
         if ch.chance(F, "tamper", 0.35):
             for j in range(ch.randint(F, "ntamper", 1, 3)):
                 faults.append(["tamper_read", ch.randrange(F, ("tsrv", j), nservers), ch.randint(F, ("tnth", j), 1, 12), ch.randrange(F, ("tp", j), 1 << 30)])
@@ -796,6 +815,48 @@ def mutate_share(raw, kind, p1, p2, ctx):
         pts = sorted(set([0, 3, 4, p["header_size"] - 1, p["header_size"]] + [v + dlt for v in o.values() for dlt in (-1, 0, 1)] + [len(sb) - 1, p1 % max(1, len(sb))]))
         pts = [x for x in pts if 0 <= x < len(sb)]
         del sb[pts[p2 % len(pts)]:]
+    elif kind == "splice":
+        # an adversary who holds the same-numbered share of ANOTHER file with the same key, size and encoding: chosen
+        # pieces of that share replace the genuine ones, so that the forged pieces agree with one another (forged block
+        # <-> forged block-hash leaf <-> forged ciphertext-hash leaf ...) while the roots in the UEB stay genuine.
+        # p1 = bit mask of pieces, p2 = target segment
+        other = ctx.get("splice")
+        if other is not None:
+            try:
+                q = sharecheck.parse_share(sharecheck.split_container(other)[1])
+                ueb = sharecheck.unpack_ueb(p["ueb"])
+                nseg_, bs_, sl_ = sharecheck.seg_geometry(ueb["size"], ueb["segment_size"], ueb["needed_shares"])
+            except Exception:
+                q, nseg_ = None, 0
+            ob = sharecheck.split_container(other)[1] if q else b""
+            if q and nseg_ and q["offsets"] == p["offsets"] and len(ob) >= len(sb) - 64:
+                o = p["offsets"]
+                tgt = p2 % nseg_
+
+                def take(a, b):
+                    if 0 <= a < b <= min(len(sb), len(ob)):
+                        sb[a:b] = ob[a:b]
+
+                def leaf(region_start, region_end, i):
+                    nodes = (region_end - region_start) // 32
+                    first = (nodes + 1) // 2 - 1
+                    a = region_start + 32 * (first + i)
+                    take(a, a + 32)
+                if p1 & 1:
+                    a = o["data"] + sum(bs_[:tgt])
+                    take(a, a + bs_[tgt])
+                if p1 & 2:
+                    leaf(o["block_hashes"], o["share_hashes"], tgt)
+                if p1 & 4:
+                    leaf(o["crypttext_hash_tree"], o["block_hashes"], tgt)
+                if p1 & 8:
+                    take(o["block_hashes"], o["share_hashes"])
+                if p1 & 16:
+                    take(o["crypttext_hash_tree"], o["block_hashes"])
+                if p1 & 32:
+                    take(o["data"], o["plaintext_hash_tree"])
+                if p1 & 64:
+                    take(o["share_hashes"], o["uri_extension"])
     elif kind in ("swap_file", "swap_enc", "swap_shnum"):
         other = ctx.get(kind)
         if other is not None:
@@ -846,6 +907,14 @@ def exec_layout(case):
                 for s in g.servers:
                     for shnum, raw in s.shares_of(siB).items():
                         ctx_by_sh.setdefault(shnum, {})["swap_file"] = raw
+        if any(m[2] == "splice" for m in case.get("muts", [])):
+            dataS = pat_bytes(cfg["datapat"] + 2, cfg["size"])
+            stS, resS = run(up.upload(FixedKeyUploadable(Data(dataS, convergence=None), capd["key"])))
+            if stS == "ok":
+                for s in g.servers:
+                    for shnum, raw in s.shares_of(si).items():
+                        ctx_by_sh.setdefault(shnum, {})["splice"] = raw
+                        os.unlink(s.share_path(si, shnum))
         if any(m[2] == "swap_enc" for m in case.get("muts", [])):
             up2 = g.add_client(k=k, happy=1, n=n, segsize=max(k, cfg["seg"] // 2 if cfg["seg"] > 2 * k else cfg["seg"] * 3), convergence=conv_secret("A"))
             stE, resE = run(up2.upload(FixedKeyUploadable(Data(data, convergence=None), capd["key"])))
